@@ -46,12 +46,17 @@ func generate(f gen.Flags) {
 	digest = nil // the corpus is not part of the cross-process comparison
 	r := gen.NewRand(f.Seed)
 	child := os.Getenv("C29_CHILD") != ""
-	ru, rs := r.Fork(), r.Fork()
+	ru, rs, rc, rp := r.Fork(), r.Fork(), r.Fork(), r.Fork()
 	if !child { // the second process only repeats end-to-end searches (same PRNG stream for them)
 		unitCases(ru, f.N(12, 120), f.N(6, 8))
 		sortCases(rs, f.N(400, 8000))
+		collectCases(rc, f.N(150, 3000))
+		for i := 0; i < f.N(3, 30); i++ {
+			aggregatedE2E(promotionFamily(rp), []srcQ{parseQ("needle")}, "promotion-then-between")
+		}
 	}
 	nDirs := f.N(4, 40)
+	aggRandomBudget = f.N(2, 40)
 	for i := 0; i < nDirs; i++ {
 		genE2E(r.Fork(), f.N(6, 15), 5)
 		if i == 1 {
@@ -128,6 +133,10 @@ func replay(path string) error {
 		return nil
 	}
 	q := parseQ(d.Query)
+	if d.Aggregated {
+		aggregatedE2E(d.Repos, []srcQ{q}, d.Family)
+		return nil
+	}
 	rep := d.Repeats
 	if rep < 2 {
 		rep = 5
